@@ -37,12 +37,18 @@ for k in ks:
     # run my check with the change applied: on /repo itself, or (CONFIRM_WT=1, used while other jobs read /repo) on the scratch
     # worktree through UFL_VERIF_REPO
     if os.environ.get("CONFIRM_WT"):
-        sh("git checkout -- .", cwd=wt); sh("git apply %s/patch.diff" % dst, cwd=wt)
+        # a FRESH worktree of /repo's current HEAD (the agent's worktree may predate later fix: commits)
+        wt2 = "/tmp/wt_confirm_%d" % os.getpid()
+        sh("git worktree add --detach %s HEAD" % wt2, cwd="/repo")
+        rca, outa = sh("git apply %s/patch.diff" % dst, cwd=wt2)
+        if rca:
+            print("  patch does not apply to /repo's HEAD (a fix: commit touched the same lines); not kept", outa[:200])
+            sh("git worktree remove --force %s" % wt2, cwd="/repo"); shutil.rmtree(dst); continue
         sh("cp evidence/%s.json /tmp/ev_keep_%s.json" % (pid, pid), cwd="/verif")
         try:
-            rcc, outc = sh("./check %s" % pid, cwd="/verif", timeout=3000, env=dict(os.environ, UFL_VERIF_REPO=wt))
+            rcc, outc = sh("./check %s" % pid, cwd="/verif", timeout=3000, env=dict(os.environ, UFL_VERIF_REPO=wt2))
         finally:
-            sh("git checkout -- .", cwd=wt)
+            sh("git worktree remove --force %s" % wt2, cwd="/repo")
             sh("git checkout -- lean/UflVerif/Gen", cwd="/verif")
             sh("mv /tmp/ev_keep_%s.json evidence/%s.json" % (pid, pid), cwd="/verif")
         rec["check_quick_exit"] = rcc
